@@ -76,6 +76,13 @@ class TreeGen:
         r = self.rnd
         x = r.random()
         if depth >= 3 or x < 0.45:
+            if r.random() < 0.06:
+                # a helper guarded by a secret condition, built once and called twice; its body is only valid when the condition holds
+                self.kinds.add("guarded-helper-called-twice")
+                a, b = r.choice(vars_), r.choice(vars_)
+                free = [v for v in vars_ if v not in (a, b)]       # the helper's condition is fixed when it is built: its inputs stay as they are
+                if free:
+                    return ("guarded_twice", a, b, r.choice(free), r.choice(free))
             if self.fxp and r.random() < 0.25:
                 self.kinds.add("fixed-point-variable-assigned-integers")
                 return ("assign_raw", "f", r.choice(["{a} + 0", "{b} + 1", "{f} + 1", "{f} + {a}", "{c} * 2", "{f} * 2"]))
@@ -195,6 +202,16 @@ def render(tree, api):
                 if not api:
                     rhs = "chk(%s)" % rhs
                 emit(ind, "%s = %s" % (("_.%s" % st[1]) if api else st[1], rhs))
+            elif k == "guarded_twice":
+                _, a, b, t1, t2 = st
+                self_id = len(lines)
+                if api:
+                    emit(ind, "_g%d = guarded(_.%s != 0)(lambda: (_.%s * _.%s) / _.%s)" % (self_id, b, a, b, b))
+                    emit(ind, "_.%s = if_then_else(_.%s != 0, _g%d(), _.%s)" % (t1, b, self_id, t1))
+                    emit(ind, "_.%s = if_then_else(_.%s != 0, _g%d() + 1, _.%s)" % (t2, b, self_id, t2))
+                else:
+                    emit(ind, "if %s != 0: %s = chk((%s * %s) // %s)" % (b, t1, a, b, b))
+                    emit(ind, "if %s != 0: %s = chk((%s * %s) // %s + 1)" % (b, t2, a, b, b))
             elif k == "arr_write":
                 rhs = ex(st[2])
                 if api:
